@@ -15,7 +15,7 @@ CHECKS = {
     "C03": {
         "level": "exploration",
         "shards": {"quick": 16, "thorough": 32},
-        "budget": {"quick": 40, "thorough": 420},
+        "budget": {"quick": 120, "thorough": 420},
         "rule": GEN_RULE + "; here both readers are run on the same input and start offset and compared "
                            "(value, tell, _sizes, layout), plus cut inputs for contradiction; start offsets 0, a multiple of "
                            "16 and an odd one (also for aligned structures: position dependent there, but equally in "
@@ -43,7 +43,7 @@ CHECKS = {
 CHECKS["C02"] = {
     "level": "exploration",
     "shards": {"quick": 16, "thorough": 32},
-    "budget": {"quick": 40, "thorough": 420},
+    "budget": {"quick": 120, "thorough": 420},
     "rule": GEN_RULE + "; inputs are model-built encodings with random garbage in padding and unassigned bit-field "
                        "bits, plus arbitrary bytes; the real dumps() of the real parse is compared bit by bit with the "
                        "input under the reference model's data-bit mask",
@@ -58,7 +58,7 @@ CHECKS["C02"] = {
 CHECKS["C01"] = {
     "level": "exploration",
     "shards": {"quick": 16, "thorough": 32},
-    "budget": {"quick": 40, "thorough": 420},
+    "budget": {"quick": 120, "thorough": 420},
     "rule": GEN_RULE + "; values come from parsing hostile bytes and from direct construction out of random model "
                        "values; each is dumped by the real writer and re-parsed by the real reader; for every "
                        "integer-like leaf an out-of-range value is assigned and dumps() must raise",
@@ -75,7 +75,7 @@ CHECKS["C01"] = {
 CHECKS["C04"] = {
     "level": "exploration",
     "shards": {"quick": 16, "thorough": 32},
-    "budget": {"quick": 40, "thorough": 300},
+    "budget": {"quick": 120, "thorough": 300},
     "rule": GEN_RULE + "; fixed-size definitions only; size, alignment and every member offset (recursively) are "
                        "compared with an independent layout model and, on the mappable subset, with ctypes "
                        "(the host C ABI) and with a real C compiler (the same declarations are compiled with cc, "
@@ -94,7 +94,7 @@ CHECKS["C04"] = {
 CHECKS["C06"] = {
     "level": "exploration",
     "shards": {"quick": 16, "thorough": 32},
-    "budget": {"quick": 45, "thorough": 420},
+    "budget": {"quick": 120, "thorough": 420},
     "rule": GEN_RULE + "; three workloads: (1) exhaustive: every composition of <=8 bits into <=3 fields on uint8/int8 "
                        "units x all 256 unit contents x 2 endians x 2 readers; (2) straddling declarations that must "
                        "be rejected; (3) generated bit-field-heavy definitions x pattern inputs (all ones, top bit, "
@@ -116,7 +116,7 @@ CHECKS["C06"] = {
 CHECKS["C07"] = {
     "level": "exploration",
     "shards": {"quick": 16, "thorough": 32},
-    "budget": {"quick": 45, "thorough": 420},
+    "budget": {"quick": 120, "thorough": 420},
     "rule": GEN_RULE + "; the element-kind x length-form matrix (14 kinds x 9 forms, null-terminated only for the "
                        "statement's element list) is instantiated on every run in both readers, plus array-heavy "
                        "generated definitions, direct use (cs.uint24[3](...)) and wrong-count dumps that must be "
@@ -136,7 +136,7 @@ CHECKS["C07"] = {
 CHECKS["C08"] = {
     "level": "fault_enumeration",
     "shards": {"quick": 16, "thorough": 32},
-    "budget": {"quick": 45, "thorough": 420},
+    "budget": {"quick": 120, "thorough": 420},
     "rule": GEN_RULE + "; for every accepted (definition, configuration, input) the cut points k < extent are "
                        "enumerated (thorough: all, or 600 incl. both ends and the last-data-byte boundary when the extent "
                        "is longer; quick: <=90 per input incl. that boundary) and "
@@ -157,7 +157,7 @@ CHECKS["C08"] = {
 CHECKS["C09"] = {
     "level": "exploration",
     "shards": {"quick": 16, "thorough": 32},
-    "budget": {"quick": 45, "thorough": 420},
+    "budget": {"quick": 120, "thorough": 420},
     "rule": GEN_RULE + "; every input is parsed alone, at several start offsets with random prefix/suffix through a "
                        "recording stream (event log: lowest offset read, highest read end, final position), in "
                        "histories of 2-4 reads on one stream, and through every input kind x call form",
@@ -176,7 +176,7 @@ CHECKS["C09"] = {
 CHECKS["C05"] = {
     "level": "exploration",
     "shards": {"quick": 16, "thorough": 32},
-    "budget": {"quick": 45, "thorough": 300},
+    "budget": {"quick": 120, "thorough": 300},
     "rule": "direct calls cs.<type>(bytes) / cs.<type>.dumps(v) / arrays for every built-in integer type and alias "
             "(expectation table written from the names) x {<, >, !} x boundary, pattern and random values (8-bit types "
             "and all 1- and 2-byte LEB128 encodings exhaustively; LEB128 values to +-2^70), floats against struct, "
@@ -197,7 +197,7 @@ CHECKS["C05"] = {
 CHECKS["C10"] = {
     "level": "exploration",
     "shards": {"quick": 16, "thorough": 32},
-    "budget": {"quick": 50, "thorough": 400},
+    "budget": {"quick": 120, "thorough": 400},
     "rule": "every well-formed token sequence of the expression grammar with <= 5 tokens over 14 operands (decimal, "
             "hex, octal, binary, suffixed literals, identifiers a/b/u, constant K, sizeof(uint32), sizeof(unsigned short)), 10 binary and 2 "
             "unary operators and parentheses is enumerated completely (about 5*10^5 expressions, spaced and unspaced), "
@@ -219,7 +219,7 @@ CHECKS["C10"] = {
 CHECKS["C12"] = {
     "level": "exploration",
     "shards": {"quick": 16, "thorough": 32},
-    "budget": {"quick": 45, "thorough": 300},
+    "budget": {"quick": 120, "thorough": 300},
     "rule": "random enum/flag declarations (gaps, duplicates, expressions over earlier members, literal forms, all 14 "
             "underlying integer types, token and legacy parser, anonymous) are loaded; __members__ is compared with "
             "the statement's numbering rule; then every underlying value (all 256 for 8-bit types; members, "
@@ -240,7 +240,7 @@ CHECKS["C12"] = {
 CHECKS["C13"] = {
     "level": "exploration",
     "shards": {"quick": 16, "thorough": 32},
-    "budget": {"quick": 45, "thorough": 300},
+    "budget": {"quick": 120, "thorough": 300},
     "rule": "metamorphic: a generated definition text is loaded as the reference; mutants are produced by pure "
             "insertion of block comments (containing quotes, semicolons, braces, keywords, newlines), line comments and "
             "whitespace (space, tab, LF, CRLF) at token boundaries outside [...] and #define lines, by "
@@ -262,7 +262,7 @@ CHECKS["C13"] = {
 CHECKS["C19"] = {
     "level": "exploration",
     "shards": {"quick": 16, "thorough": 32},
-    "budget": {"quick": 40, "thorough": 300},
+    "budget": {"quick": 120, "thorough": 300},
     "rule": "random byte strings (lengths around multiples of 16), offsets and prefixes are hex-dumped and compared "
             "with an independent formatter; random palettes (zero-length entries, totals below/above the data length, "
             "entries crossing line ends) must change nothing after the colour codes are stripped; dumpstruct of parsed "
@@ -281,7 +281,7 @@ CHECKS["C19"] = {
 CHECKS["C20"] = {
     "level": "exploration",
     "shards": {"quick": 8, "thorough": 32},
-    "budget": {"quick": 40, "thorough": 300},
+    "budget": {"quick": 120, "thorough": 300},
     "rule": "generated definition sets (structs, unions, nested and anonymous members, enums, flags, typedef names, "
             "arrays, pointers, constants) plus a list of special forms (anonymous enums, typedefs of array/pointer "
             "types, keyword names, string/bytes/float constants, string aliases) are loaded and passed to the real stub "
@@ -299,7 +299,7 @@ CHECKS["C20"] = {
 CHECKS["C15"] = {
     "level": "exploration",
     "shards": {"quick": 16, "thorough": 32},
-    "budget": {"quick": 50, "thorough": 420},
+    "budget": {"quick": 240, "thorough": 600},
     "rule": "twelve workloads (expression-sized arrays, bit-fields+enums incl. dumping, unions with member assignment, "
             "dereferenced pointers, nested arrays of structures with null-terminated wchar, LEB128 parse+dump, "
             "wchar/multi-dimensional/expression tails, null-terminated arrays of structures, unknown enum/flag values "
@@ -329,7 +329,7 @@ CHECKS["C15"] = {
 CHECKS["C16"] = {
     "level": "exploration",
     "shards": {"quick": 16, "thorough": 32},
-    "budget": {"quick": 40, "thorough": 300},
+    "budget": {"quick": 120, "thorough": 300},
     "rule": "the full product target kind {scalar, float, char, struct, pointer-to-pointer} x pointer type "
             "{uint8,16,24,32,48,64} x endian x alignment x reader is instantiated on every run: a structure with a "
             "pointer, following fields and an array of pointers is placed in a stream at a random base together with "
@@ -351,7 +351,7 @@ CHECKS["C16"] = {
 CHECKS["C11"] = {
     "level": "exploration",
     "shards": {"quick": 16, "thorough": 32},
-    "budget": {"quick": 45, "thorough": 400},
+    "budget": {"quick": 120, "thorough": 400},
     "rule": "union-centred definitions (2-4 members: scalars of every width, arrays, char arrays, nested structures "
             "with bit-fields, anonymous structures, enums, pointers; as top-level union, named field or anonymous "
             "member of a structure) x endian x alignment x reader; after parsing and after every step of a random "
@@ -378,7 +378,7 @@ CHECKS["C11"] = {
 CHECKS["C17"] = {
     "level": "exploration",
     "shards": {"quick": 16, "thorough": 32},
-    "budget": {"quick": 45, "thorough": 400},
+    "budget": {"quick": 120, "thorough": 400},
     "rule": "fixed-size generated definitions with 1-10 (thorough: 1-40) fields, each loaded together with a twin "
             "structure of identical fields under another name; pairs of instances (parsed/constructed, identical or "
             "differing in exactly one field) are compared with a field-wise model for ==, !=, hash and bool; keyword/"
@@ -400,7 +400,7 @@ CHECKS["C17"] = {
 CHECKS["C14"] = {
     "level": "exploration",
     "shards": {"quick": 16, "thorough": 32},
-    "budget": {"quick": 45, "thorough": 400},
+    "budget": {"quick": 120, "thorough": 400},
     "rule": "random histories of 10-24 operations over three cstruct objects (two with the same type names and "
             "definitions but different byte order, one with other definitions): default and keyword construction, "
             "in-place mutation of lists / nested structures / array elements, parse, dump, failed parse, endianness "
@@ -422,7 +422,7 @@ CHECKS["C14"] = {
 CHECKS["C18"] = {
     "level": "exploration",
     "shards": {"quick": 16, "thorough": 32},
-    "budget": {"quick": 45, "thorough": 400},
+    "budget": {"quick": 120, "thorough": 400},
     "rule": GEN_RULE + "; the field list of each generated structure is replayed through random splits into "
                        "add_field / start_update batches / commits on an initially empty (optionally compiled) class and "
                        "compared with the one-shot class: layout signature, compiled state, generated reader source, "
